@@ -482,7 +482,7 @@ def exec_params(rng, R, C, big=False):
     ]
     ex = {"labware": labware, "stock": 0, "stock_column": rng.randrange(labware[0]["cols"]), "diluent": 1,
           "diluent_column": rng.randrange(labware[1]["cols"]), "plate": 2,
-          "wl": {"max_volume": rng.choice(["950", "950", "1000", "200", "500"]), "max_int": rng.random() < 0.5, "auto_split": True, "diti_mode": False},
+          "wl": {"max_volume": rng.choice(["950", "950", "1000", "200", "500", "25/2", "15/2", "375/2"]), "max_int": False, "auto_split": True, "diti_mode": False},
           "mix_threshold": rng.choice(["1/16", "1/32", "1/2", "0"]), "mix_wash": rng.choice([1, 2, 3, "flush", "reuse"]),
           "mix_repeat": rng.choice([0, 1, 2, 2, 3]), "mix_volume": rng.choice(["3/4", "1/2", "1/4", "7/8", "1", "1"]), "sufficient": suff,
           "stock_exact": rng.random() < 0.3}
